@@ -573,6 +573,13 @@ def make(model, cfg=None, mode="solve", select=("C01", "C02"), order=None, objec
                     wrong["law:passes=1+choices+backtracks"] = (int(stats["ALG_BC_NB"]), int(stats["SOLVER_CHOICE_NB"]), int(stats["SOLVER_BACKTRACK_NB"]))
             for k, v in wrong.items():
                 report("C17", "counter-mismatch:" + k, None, reported_expected=list(v))
+        # ------------------------------------------------------------------ mode hazards (C15)
+        if "C15" in select and core.FLAGS.hazards and E.check():
+            m = E.model()
+            E.acc.count("mode-hazard-paths")
+            v = dict(prop="C15", kind="mode-hazard", site="hazard:" + str(core.FLAGS.hazards[0].get("where"))[:80], cls=None, benign_if_not_reproduced=True, modes=["jit"], hazard=core.FLAGS.hazards[0], hazards=len(core.FLAGS.hazards))
+            v.update(wit(m))
+            E.acc.violation(v)
         # ------------------------------------------------------------------ uninitialised memory (C15)
         if "C15" in select:
             names = {str(h.e) for h in HAVOC}
